@@ -78,6 +78,12 @@ end
 
 def anyStr : String → Bool := fun _ => true
 
+/-- a string that does not end with a line terminator (the empty string included) -/
+def endsOK (t : String) : Bool :=
+  match t.toList.getLast? with
+  | some c => !isLT c
+  | none => true
+
 
 /-- the node classes whose definitions open an indentation level without a brace -/
 def caseKinds : List String := ["Case", "Default"]
